@@ -81,7 +81,7 @@ def mk2d(case, arr, scale=1.0, shift=(0.0, 0.0), mask=None):
     p1 = [case["off"][0] * cx + shift[0], case["off"][1] * cy + shift[1]]
     p2 = [p1[0] + nx * cx, p1[1] + ny * cy]
     mesh = df.Mesh(p1=p1, p2=p2, n=(nx, ny))
-    return df.Field(mesh, nvdim=3, value=arr, valid=True if mask is None else mask,
+    return df.Field(mesh, nvdim=3, value=np.array(arr, copy=True), valid=True if mask is None else mask,
                     vdim_mapping={"x": "x", "y": "y", "z": None})
 
 
@@ -253,7 +253,7 @@ def check_hedgehog(case):
         labels = list(case.get("labels") or ["x", "y", "z"])
         kw["vdim_mapping"] = {labels[c]: "xyz"[a] for c, a in enumerate(case["mapping"])}
         tag("declared-mapping-permuted")
-    f = df.Field(mesh, nvdim=3, value=m, valid=valid, **kw)
+    f = df.Field(mesh, nvdim=3, value=m, valid=(valid if isinstance(valid, bool) else np.array(valid, copy=True)), **kw)
     for direction in "xyz":
         r = dft.count_bps(f, direction=direction)
         want_tt, want_hh = (1, 0) if case["sign"] > 0 else (0, 1)
@@ -310,7 +310,7 @@ def check_angles(case):
         sl[case["axis"]] = 1
         b = tuple(sl)
         arr[b] = -2 * arr[a] if case.get("lengths", "random") == "random" else -arr[a]
-    f = df.Field(mesh, nvdim=3, value=arr)
+    f = df.Field(mesh, nvdim=3, value=np.array(arr, copy=True))
     d = case["axis"]
     res = dft.neighbouring_cell_angle(f, direction=dims[d], units=case["units"])
     u = arr / np.linalg.norm(arr, axis=-1, keepdims=True)
